@@ -5,6 +5,7 @@ import shutil
 import tempfile
 import warnings
 
+import envelope as E
 import pipegen as G
 import xlgen as X
 from common import run_model, rel_close
@@ -156,7 +157,18 @@ def monitor(ctx, extended=False):
                 ctx.violation(f'store_to_excel raised {type(e).__name__}: {e} for name {n!r}', {'requested': n}, key='file-name')
         # round trip
         for i in range(ctx.n(12, 400) * (2 if extended else 1)):
-            pl = G.random_pipeline(ctx.rng, n_pumps=ctx.rng.randint(0, 3))
+            sl = None
+            if i < 4 or ctx.rng.random() < 0.3:
+                # fine, heavy solids: D50 just above the pseudo-liquid limit (which falls with the solids density), D15 below it
+                dia = ctx.rng.choice([0.4, 0.5, 0.65, 0.762, 0.9])
+                pp = E.slurry_params(ctx.rng)
+                pp['Dp'], pp['rhos'] = dia, ctx.rng.uniform(3.2, 4.0)
+                nu_, rhol_ = E.fluids()[pp['fluid']]
+                pp['D50'] = max(E.dlim(dia, nu_, rhol_, pp['rhos']), 5e-5) * ctx.rng.uniform(1.01, 1.15)
+                pp['r15'], pp['r85'] = ctx.rng.uniform(1.5, 4.0), min(ctx.rng.uniform(1.5, 4.0), 0.5 * dia / pp['D50'])
+                sl = E.make_slurry(pp, max_index=100)
+                sl._params = pp
+            pl = G.random_pipeline(ctx.rng, n_pumps=ctx.rng.randint(0, 3), slurry=sl, **({'dia_choices': (sl.Dp,)} if sl is not None else {}))
             pl.name = ctx.rng.choice(['Line A', 'x', 'Ünïcode ✓', 'a/b'])
             pl.slurry.name = ctx.rng.choice(['sand', 'S 1'])
             secs = pl.pipesections
